@@ -19,6 +19,8 @@ PY
 rc=0
 while IFS=$'\t' read -r prop commit what; do
   git -C /repo diff $commit $commit^ > /var/tmp/regress/$commit.patch
+  # where later fix: commits touched the same lines the plain reverse patch no longer applies: hand-made equivalent
+  [ -s /verif/seeded/regressions/$commit.patch ] && cp /verif/seeded/regressions/$commit.patch /var/tmp/regress/$commit.patch
   line=$(tools/seedrun.py /var/tmp/regress/$commit.patch $prop | tail -1)
   res=$(echo "$line" | awk '{print $1}')
   sig=$(echo "$line" | sed -n 's/.*first: sig=//p' | cut -c1-120)
